@@ -223,6 +223,20 @@ func (e *engine) planBoth(c *Case, store *Config, stream string) planOutcome {
 	return out
 }
 
+// loadTie: what the real LoadDevice keeps of the manager (prefix filter, paged listings, order)
+// versus the model `loadPaged`.
+func (e *engine) loadTie(c *Case) {
+	impl, err := e.rr.loadOnly(c.Store, c.PageSize)
+	model := e.drv.Ask(fmt.Sprintf("load\t%d\t%s", c.PageSize, encConfig(c.Store)))
+	e.res.Count("load-tie")
+	e.res.TracesVsImpl++
+	if err != nil {
+		e.res.Disagree("load", c, "error: "+err.Error(), model)
+	} else if impl != model {
+		e.res.Disagree("load", c, impl, model)
+	}
+}
+
 type runOutcome struct {
 	status  string
 	final   *Config
@@ -283,6 +297,8 @@ func pred(cl map[string]string, T *Config, status string) string {
 		return "inline_service_entries_not_compact"
 	case cl["sortTies"] == "1":
 		return "rules_tie_under_sort"
+	case cl["distinctT"] == "0":
+		return "target_groups_with_equal_content"
 	}
 	return "other"
 }
@@ -318,8 +334,11 @@ func (e *engine) oneCase(c *Case) {
 	res.Count("stream:" + c.Stream)
 	res.Count("mode:" + c.Mode)
 	cl := parseFlags(e.drv.Ask("class\t" + encConfig(c.Store) + "\t" + encConfig(T)))
-	for _, k := range []string{"accepted", "idsOK", "policyIds", "unmanagedIndep", "targetWF", "storeWF", "sortTies", "extRefs"} {
+	for _, k := range []string{"accepted", "idsOK", "policyIds", "unmanagedIndep", "targetWF", "storeWF", "sortTies", "extRefs", "idemOK", "distinctT"} {
 		res.Count("class:" + k + "=" + cl[k])
+	}
+	if c.Mode == "http" && e.rng.Chance(25) {
+		e.loadTie(c)
 	}
 	po := e.planBoth(c, c.Store, "plan")
 	if po.crash != "" {
@@ -405,6 +424,22 @@ func (e *engine) oneCase(c *Case) {
 		e.fail("idem", pr, fmt.Sprintf("second compare reports %d changes, first: %s", len(po2.real.Calls), showCall(po2.real.Calls[0])), c)
 	case po2.real.Kind == "ok":
 		res.Count("idem:empty")
+		// the manager may list rules, groups and services in any order: the plan must stay empty
+		// (plan_unchanged is about multisets of rules, not about the order of listing)
+		sh := cloneConfig(ro.final)
+		for i := range sh.Policies {
+			Shuffle(e.rng, sh.Policies[i].Rules)
+		}
+		Shuffle(e.rng, sh.Groups)
+		Shuffle(e.rng, sh.Services)
+		Shuffle(e.rng, sh.Policies)
+		po3 := e.planBoth(&c2, sh, "second plan, other listing order")
+		if po3.real.Kind == "ok" && len(po3.real.Calls) > 0 {
+			e.fail("idem", pr, fmt.Sprintf("compare after approve reports %d changes when the manager lists its objects in another order, first: %s",
+				len(po3.real.Calls), showCall(po3.real.Calls[0])), c)
+		} else if po3.real.Kind == "ok" {
+			res.Count("idem:empty-after-relisting")
+		}
 	}
 	// C10: resume from the state after every proper prefix
 	if !wantPrefixes || len(ro.states) != len(calls)+1 {
@@ -481,10 +516,14 @@ func (e *engine) myersStream(n int) {
 	for i := 0; i < n; i++ {
 		a, b := e.rng.Intn(7), e.rng.Intn(7)
 		dens := []int{10, 30, 50, 80}[e.rng.Intn(4)]
+		diag := i%3 == 0
+		if diag {
+			b = a // same length, pairwise equal: the library must answer with the single pairing range
+		}
 		m := make([]byte, a*b)
 		for k := range m {
 			m[k] = '0'
-			if e.rng.Chance(dens) {
+			if e.rng.Chance(dens) || (diag && k/b == k%b) {
 				m[k] = '1'
 			}
 		}
@@ -508,11 +547,24 @@ func (e *engine) myersStream(n int) {
 			e.res.Count("myers:library-sanity-panic")
 			continue
 		}
-		got, valid, _ := strings.Cut(ans, "\t")
+		af := strings.Split(ans, "\t")
+		for len(af) < 3 {
+			af = append(af, "")
+		}
+		got, valid, idok := af[0], af[1], af[2]
+		if diag {
+			e.res.Count("myers:identity-cases")
+			if exp := fmt.Sprintf("0,%d,0,%d", a, a); want != exp {
+				// hypothesis IdOnEqual of nsx_idempotent_partial, checked on the library itself
+				e.res.Disagree("myers identity on equal lists (library)", map[string]any{"a": a, "m": string(m)}, want, exp)
+			}
+		}
 		if got != want {
 			e.res.Disagree("myers port", map[string]any{"a": a, "b": b, "m": string(m)}, want, got)
 		} else if valid != "1" {
 			e.res.Disagree("myers script validity", map[string]any{"a": a, "b": b, "m": string(m)}, want, "invalid")
+		} else if idok != "1" {
+			e.res.Disagree("myers identity on equal lists (port)", map[string]any{"a": a, "b": b, "m": string(m)}, want, got)
 		}
 	}
 }
@@ -561,7 +613,7 @@ func runProp(ctx *Ctx, prop string) *Result {
 		total += s.weight
 	}
 	n := ctx.N(600, 14000)
-	deadline := time.Now().Add(time.Duration(ctx.N(55, 960)) * time.Second)
+	deadline := time.Now().Add(time.Duration(ctx.N(55, 780)) * time.Second)
 	for i := 0; i < n; i++ {
 		if len(res.Disagreements) >= 20 {
 			res.Notes = append(res.Notes, fmt.Sprintf("stopped after %d generated cases: 20 disagreements recorded", i))
